@@ -150,12 +150,23 @@ SumSlots(S) == IF S = {} THEN 0 ELSE LET e == CHOOSE x \in S : TRUE IN Slots(e[1
 
 (* The class of the pool vectors: `pre` interfaces named apart from every  *)
 (* other string, one method m()V whose code loads the constants `puts`.    *)
-ClassNeed(puts) ==
-    {<<"Utf8", "gen/Pool">>, <<"Class", "gen/Pool">>, <<"Utf8", "java/lang/Object">>, <<"Class", "java/lang/Object">>,
-     <<"Utf8", "m">>, <<"Utf8", "()V">>, <<"Utf8", "Code">>}
+(* nm = the names of the class, its super class and the method.            *)
+Names    == [this |-> "gen/Pool", super |-> "java/lang/Object", m |-> "m"]
+(* after the prefix renaming of the harness (classes renamed/.., members   *)
+(* r_..; a class constant is renamed, a string constant is not)            *)
+RenNames == [this |-> "renamed/gen/Pool", super |-> "renamed/java/lang/Object", m |-> "r_m"]
+RenConst(c) == IF Has(c, "class") THEN [class |-> "renamed/" \o c.class] ELSE c
+RenPuts(puts) == [i \in DOMAIN puts |-> RenConst(puts[i])]
+
+ClassNeed(nm, puts) ==
+    {<<"Utf8", nm.this>>, <<"Class", nm.this>>, <<"Utf8", nm.super>>, <<"Class", nm.super>>,
+     <<"Utf8", nm.m>>, <<"Utf8", "()V">>, <<"Utf8", "Code">>}
     \cup UNION {NeedOf(puts[i]) : i \in DOMAIN puts}
-NeedCount(pre, puts) == 1 + 2 * pre + SumSlots(ClassNeed(puts))
-Representable(pre, puts) == NeedCount(pre, puts) <= PoolMax
+NeedCount(nm, pre, puts) == 1 + 2 * pre + SumSlots(ClassNeed(nm, puts))
+Representable(nm, pre, puts) == NeedCount(nm, pre, puts) <= PoolMax
+(* the tree as written: renamed or not *)
+OutNames(ren) == IF ren THEN RenNames ELSE Names
+OutPuts(ren, puts) == IF ren THEN RenPuts(puts) ELSE puts
 
 (* the writer's own order for that class: this, super, interfaces (the     *)
 (* base), method name and descriptor, the code's constants, the attribute  *)
@@ -164,11 +175,11 @@ RECURSIVE PutAll(_, _, _)
 PutAll(p, puts, acc) ==
     IF Len(puts) = 0 THEN <<p, acc>>
     ELSE LET a == PutLoadable(p, Head(puts)) IN PutAll(a[1], Tail(puts), Append(acc, a[2]))
-WriteClass(pre, puts) ==
+WriteClass(nm, pre, puts) ==
     LET p0 == NewPool(2 * pre)
-        p1 == PutOver(p0, "Class", "gen/Pool")[1]
-        p2 == PutOver(p1, "Class", "java/lang/Object")[1]
-        p3 == PutUtf8(PutUtf8(p2, "m")[1], "()V")[1]
+        p1 == PutOver(p0, "Class", nm.this)[1]
+        p2 == PutOver(p1, "Class", nm.super)[1]
+        p3 == PutUtf8(PutUtf8(p2, nm.m)[1], "()V")[1]
         a  == PutAll(p3, puts, <<>>)
         p4 == PutUtf8(a[1], "Code")[1]
     IN [pool |-> WriteBsm(p4, 1), idx |-> a[2]]
